@@ -40,6 +40,9 @@ def main():
         nontriv = jv >= 2 and (c['kshape'][0] != c['kshape'][1] or jv < c['src'].size) and c['style'] != 'const-src'
         run.count_case((c['model'], c['kshape'], c['thresh'], c['src'].tobytes(), c['ref'].tobytes()), nontriv,
                        desc if k < 3 else None)
+        if c['model'] == 'gain-blk-offset' and not ik.norm_check(c['src'], c['ref'], out):
+            run.add_violation('block normalisation is not (std ratio, 1st percentile offset) of the jointly valid pixels',
+                              desc, observed=dict(norm=out['norm']), signature=dict(kind='block-norm'))
         if c['model'] == 'gain-blk-offset' and not (np.isfinite(a) and np.isfinite(b)):
             dist['gbo-degenerate-norm'] = dist.get('gbo-degenerate-norm', 0) + 1
             continue
@@ -48,9 +51,6 @@ def main():
         if v is not None:
             run.add_violation(v['what'], desc, expected=v.get('expected'), observed=v,
                               signature=dict(kind='kernel-definition', model=c['model']))
-        if c['model'] == 'gain-blk-offset' and not ik.norm_check(c['src'], c['ref'], out):
-            run.add_violation('block normalisation is not (std ratio, 1st percentile offset) of the jointly valid pixels',
-                              desc, observed=dict(norm=out['norm']), signature=dict(kind='block-norm'))
         cases.append(ik.encode(c['model'], c['kshape'], c['thresh'], c['src'], c['ref'], out))
         metas.append(desc)
     failing, nt = run.corr('fit', 'Corr.CheckC01', cases, shard=60)
